@@ -107,7 +107,7 @@ IssueRaw ==
 (* Present: the holder algorithm SelH on (payload, all disclosures), then  *)
 (* an optional key-binding JWT over the presented sequence.                *)
 (***************************************************************************)
-PresentMsg(pc) ==
+PresentMsg(pc, tag) ==
   LET cr == creds[pc.c]
       dgs == SelH(cr.jwt.pl, DMap(cr.discs), pc.sel)
       ds == WireSeq({d \in cr.discs : d.dg \in dgs})
@@ -115,11 +115,13 @@ PresentMsg(pc) ==
             ELSE LET h == JObj([k \in {"alg", "typ"} |-> IF k = "alg" THEN JStr(pc.kb.alg) ELSE JStr("kb+jwt")])
                      p == JObj([k \in {"nonce", "aud", "sd_hash"} |->
                                   IF k = "nonce" THEN JStr(pc.kb.nonce) ELSE IF k = "aud" THEN JStr(pc.kb.aud) ELSE JStr(SdHashSym(cr.jwt, ds))])
-                 IN MkJwt(h, p, "kbsig")
+                 \* (one signature symbol per signing act: a KB-JWT moved over from the other presentation and then given the
+                 \*  right sd_hash has the VALUES of this presentation's own KB-JWT but not its signature)
+                 IN MkJwt(h, p, "kbsig:" \o tag)
   IN MkMsg(cr.jwt, ds, kb, cr.tm)
 Present(pc, which) ==
   /\ pc.c \in DOMAIN creds
-  /\ LET m == PresentMsg(pc) IN
+  /\ LET m == PresentMsg(pc, which \o ToString(pc.c)) IN
      /\ ledger' = IF pc.kb = NoKB THEN ledger ELSE ledger \cup {Signed(pc.kb.key, pc.kb.alg, m.kb.id)}
      /\ IF which = "cur" THEN cur' = m /\ ghost' = [c |-> pc.c, sel |-> pc.sel, kb |-> pc.kb, nn |-> 0] /\ other' = other
                          ELSE other' = m /\ cur' = cur /\ ghost' = ghost
